@@ -19,6 +19,8 @@ the real handler makes (observed on the real code with call traces, then transcr
   the file's access time) and reported with `OnChunkRetrieved(cid, root, self)` unless it is
   the root; a missing chunk is retrieved from the peer: `OnChunkRetrieved(cid, root, peer)`
   *before* `Put(ModePutRequest)`.
+* `nsGetFault` — the same read when the local `Get` fails with an error that is not not-found: the
+  error is returned, nothing is reported to chunkinfo, the peer is not asked (state unchanged).
 * `apiPin` / `apiUnpin` — `HasPin` guard, traversal reads of every pyramid key under the root
   context, `ModeSetPin` / `ModeSetUnpin` once per reported address (pyramid keys once, data
   chunks of multi-chunk entries once per occurrence), root key.
@@ -144,6 +146,14 @@ def nsGet (s : State) (f : FileS) (a : Addr) : State :=
   else
     let s1 := onChunkRetrieved s f a peer
     lsPut s1 .request (some f.root) a
+
+/-- `netstore.Get` under a file context when the local read `s.Storer.Get` of `a` fails with an error
+    other than `storage.ErrNotFound` (I/O error, closed database, cancelled context …; in the harness
+    the storer netstore reads through answers it, localstore is not reached — no access-time update):
+    the `err != nil` branch returns `netstore get: …` at once — the network is not asked and
+    `OnChunkRetrieved` is NOT called, whether or not the chunk is stored.  Nothing is recorded; the
+    Boolean is "the read answered a chunk". -/
+def nsGetFault (s : State) (_f : FileS) (_a : Addr) : State × Bool := (s, false)
 
 def apiUpload (s : State) (fi : FileInfo) (pin : Bool) : State :=
   let mode := if pin then Aurora.Localstore.PutMode.uploadPin else Aurora.Localstore.PutMode.upload
